@@ -43,18 +43,15 @@ def showLossy (tag : String) (r : Except Lossy.Err Lossy.Copyright) (path : Str)
   | .error (.msg m) => s!"{tag}[err:{encStr m}]"
   | .ok c => showAnswer tag (Lossy.answer c path)
 
-def triggers (s : Str) (strictOk : Bool) (c : Doc) (path : Str) : String :=
-  let ids := (if Finding.f1 s strictOk c path then ["F-C17-1"] else []) ++
-             (if Finding.f2 s strictOk c path then ["F-C17-2"] else [])
-  if ids.isEmpty then "" else "\t!" ++ ",".intercalate ids
-
 def handle (op : String) (args : List String) : Option String :=
   match op, args with
   | "glob.match", [g, p] => do
     let g ← decStr g
     let p ← decStr p
+    -- the pattern reaches `glob_to_regex` through a Files field, i.e. through `split_whitespace`:
+    -- white space separates patterns, `any` stops at the first match
     if g.contains '\n' then none
-    else pure (showO encBool (matchGlob g p))
+    else pure (showO encBool (anyMatch (Lossy.deserializeFileList g) p))
   | "cpr.find", [t, p, so, ps] => do
     let s ← decStr t
     let path ← decStr p
@@ -64,7 +61,8 @@ def handle (op : String) (args : List String) : Option String :=
     let l := showLossless "L" (Lossless.fromStr strict s) path
     let r := showLossless "R" (Lossless.fromStrRelaxed (fun _ => paras) s) path
     let y := showLossy "Y" (Lossy.fromStr strict s) path
-    pure (s!"{l} {r} {y}" ++ triggers s strictOk paras path)
+    -- no open finding for C17: nothing is appended (F-C17-1, F-C17-2 are fixed)
+    pure s!"{l} {r} {y}"
   | _, _ => none
 
 end Deb822Verif.Driver.Cpr
